@@ -129,6 +129,8 @@ def payload_bytes(r: random.Random, n: int, tag: int = 0, end: bytes = None) -> 
 def ascii_text(r, n=None):
     if n is None:
         n = r.choice([0, 1, 2, 5, 11, 30, 127, 128, 200])
+        if r.random() < 0.02:
+            n = r.choice([16383, 16384, 16385, 20000])
     return ''.join(r.choice(string.ascii_letters + string.digits + ' _-.,/()') for _ in range(n))
 
 
@@ -214,6 +216,10 @@ def gen_scalar(r, op, kw, kind, ctx):
         return gen_num(r)
     if kind == 'int':
         return gen_int(r)
+    if kind in ('dtime', 'dtf') and r.random() < 0.15:
+        # one of the two documented string formats (naive: local time of the process)
+        return r.choice(['%04d/%02d/%02d %02d:%02d:%02d', '%04d.%02d.%02d %02d:%02d:%02d']) % (
+            r.choice([1950, 2003, 2050, 2100]), r.randint(1, 12), r.randint(1, 28), r.randint(0, 23), r.randint(0, 59), r.randint(0, 59))
     if kind == 'dtime':
         return gen_dt(r)
     if kind == 'dtf':
